@@ -26,7 +26,8 @@ var (
 			"app/store's LookupBackend in-process on a wire-level fake of datastore_v3; oracle = independent longest-prefix specification giving "+
 			"the set of acceptable answers, plus determinism (repetition, permuted insertion order into a fresh datastore) and a metamorphic "+
 			"relation (adding a non-matching backend never changes the answer); non-trivial = at least two matching prefixes of different "+
-			"length, a user-vs-shared conflict, or a dead best match; distinct = SHA-256 of the canonical case")
+			"length, a user-vs-shared conflict, or a dead best match; distinct = SHA-256 of the canonical case"+
+			" Later additions: registration histories (registered again, or deleted and registered again, followed by another poll).")
 	recX = vh.NewRecorder("C18", "lookup-exhaustive",
 		"bounded-exhaustive: every registry of at most 3 single-prefix backends over the 7-prefix alphabet x end user {u1, allUsers} x {live, dead}, "+
 			"looked up for user u1 on 8 paths; same oracle")
